@@ -137,12 +137,20 @@ func (*elementByFoodReporter).Flush returns (err)
   ghost after call 1 Strings {
     lassert @keys-perm forall p int :: {keys[p]} 0 <= p && p < len(keys) ==> keys[p] in r.acc && keys[p] == at(call, elems(keys))[PermBack(at(call, elems(keys)), elems(keys), p)]
     assert @keys forall p int :: {keys[p]} 0 <= p && p < len(keys) ==> keys[p] in r.acc
+    unfold SortedStr(elems(keys), len(keys))
+    unfold StrictStr(elems(keys), len(keys))
+    assert @strict StrictStr(elems(keys), len(keys))
     forget call
   }
   loop 2 {
     invariant @inv r == old(r) && r.acc == old(r.acc) && r.output == old(r.output) && EbfInv(r) && mapval(r.acc) == old(mapval(r.acc)) && BufStep(r.output)
     invariant @keys forall p int :: {keys[p]} 0 <= p && p < len(keys) ==> keys[p] in r.acc
+    // the rows come in strictly increasing order of the food names - whatever produced the key list (C05)
+    invariant @deterministic-order [C05] StrictStr(elems(keys), len(keys))
   }
+  // each row shows the food's positive plus negative amount of the element, and the food's name (C07)
+  ghost before call 1 printSingleElementByFoodRow { assert @row-args [C07] #arg1 == name && #arg2 == arr[1] && #arg3 == arr[0] }
+  ghost after call 1 printSingleElementByFoodRow { assert @row [C07] PrintedF(prLen - 1, 0, arr[1] + arr[0]) && PrintedStr(prLen - 1, 1, name) }
 
 // the old hand-written register (--use-old-reg-reporter): every line goes through r.output
 func newRegReporter returns (r)
